@@ -13,11 +13,14 @@ RULE = (
     "HTTP/1.0 without keep-alive, response that cannot be delimited (too few bytes, no length on 1.0/1.1), application "
     "failure before/after output, Transfer-Encoding on HTTP/1.0 keep-alive, declared length without any byte, client fault "
     "surfacing in the worker's flush (injected send errno), in the I/O thread's recv() while the only worker is busy with "
-    "another connection, or while the 100 Continue is written -- followed by "
+    "another connection, or while the 100 Continue is written (by the I/O thread, or by the worker at the end of the request "
+    "in front), TCP urgent data while a response is pending -- followed by "
     "{one complete request, two requests, a partial request, garbage}, arriving {in the same segment, in the next "
     "segment, after M's response started, after a delay}; lookahead {0,1,2,5}; 1-2 workers; select/poll. Schedules: "
     "complete single-pre-emption neighbourhoods (the GHSA-9298-4cf8-g4wj window is one pre-emption between readable() "
-    "and received()), random walk, PCT. Oracle: no application invocation for anything after M. distinct = trace hash"
+    "and received()), targeted two-pre-emption shapes (inside received(); service window; stale readable() without "
+    "look-ahead, per bytecode), one chained three-pre-emption shape (body sent / I/O thread waits for requests_lock while the "
+    "worker's 100 Continue fails / worker runs before the I/O thread closes), random walk, PCT. Oracle: no application invocation for anything after M. distinct = trace hash"
 )
 ASSUMPTIONS = [
     "which message is closing is known from the scenario (reference semantics of vf/sim/scenario.closes_connection and the injected fault)",
